@@ -86,3 +86,15 @@ func DumpCalls(p *core.Prog, pat string) {
 		}
 	}
 }
+
+// DumpFuncs prints every module function that has syntax as "file:startline-endline name" (for the rule-coverage report).
+func DumpFuncs(p *core.Prog) {
+	for _, fn := range p.Funcs() {
+		syn := fn.Syntax()
+		if syn == nil {
+			continue
+		}
+		a, b := p.Fset.Position(syn.Pos()), p.Fset.Position(syn.End())
+		fmt.Printf("%s:%d-%d %s\n", strings.TrimPrefix(a.Filename, p.Repo+"/"), a.Line, b.Line, core.FuncName(fn))
+	}
+}
